@@ -36,8 +36,9 @@ EXPLANATION = (
     "s/flush/in-order - structural. "
     "[flush before close] s/close/sent-from-loseConnection (who may send CLOSE), s/close/only-when-flushed (CLOSE dominated by both-buffers-empty edges), "
     "s/close/recorded, s/close/recheck-after-drain (every draining function re-checks `closing` on every path to its exit), "
-    "s/close/waits-for-swapped-out-entries (entries held in a local during the re-write loop are invisible to loseConnection's guard: known finding F36a, also "
-    "witnessed by the bounded rule sender/close-after-flush) - structural. "
+    "s/close/waits-for-swapped-out-entries (entries held in a local during the re-write loop are invisible to loseConnection's guard, so the close must be held back "
+    "for the loop: finding F36a, repaired by fix c59cdff, revert mutants in MUTANTS; also witnessed by the bounded rule sender/close-after-flush); outside loseConnection "
+    "`closing` may only be written as a save / mask / restore bracket whose restore lies on every path incl. exception exits and is followed by a retry - structural. "
     "[receiver] s/receive/window-boundary, s/receive/max-packet-boundary: delivery and window charge are guarded by exactly `length <= localWindowLeft` and "
     "`length <= localMaxPacket` in normal form (boundary constant 0: equality accepted, one more refused); s/receive/overrun-closes, s/receive/window-decrement "
     "(once, by the received length, before delivery), s/receive/replenish (amount localWindowSize - localWindowLeft by lin, after the charge, checked after every "
@@ -414,8 +415,6 @@ MUTANTS = [
     Mutant("credit-after-rewrite", CH, "        self.remoteWindowLeft = self.remoteWindowLeft + data\n        if not self.areWriting and not self.closing:\n            self.areWriting = True\n            self.startWriting()\n        if self.buf:\n            b = self.buf\n            self.buf = b\"\"\n            self.write(b)\n",
            "        if not self.areWriting and not self.closing:\n            self.areWriting = True\n            self.startWriting()\n        if self.buf:\n            b = self.buf\n            self.buf = b\"\"\n            self.write(b)\n        self.remoteWindowLeft = self.remoteWindowLeft + data\n",
            expect_rule="sender/stream-complete-in-order"),
-    Mutant("no-close-recheck-in-writeExtended", CH, "            self.remoteWindowLeft -= len(data)\n        if self.closing:\n            self.loseConnection()  # try again\n", "            self.remoteWindowLeft -= len(data)\n",
-           expect_rule="sender/close-after-flush"),
     Mutant("receiver-refuses-exact-window", CO, "            dataLength > channel.localWindowLeft or dataLength > channel.localMaxPacket\n        ):  # more data than we want",
            "            dataLength >= channel.localWindowLeft or dataLength > channel.localMaxPacket\n        ):  # more data than we want", expect_rule="receiver/limit-boundaries"),
     Mutant("adjust-not-recorded-locally", CO, "        channel.localWindowLeft += bytesToAdd\n", "", expect_rule="receiver/bookkeeping-equals-advertised"),
@@ -438,11 +437,23 @@ MUTANTS = [
            '            b = self.buf\n            self.write(b)\n', expect_rule='s/flush/swap-before-rewrite'),
     Mutant('s-receiver-refuses-exact-window', CO, '            dataLength > channel.localWindowLeft or dataLength > channel.localMaxPacket\n        ):  # more data than we want',
            '            dataLength >= channel.localWindowLeft or dataLength > channel.localMaxPacket\n        ):  # more data than we want', expect_rule='s/receive/window-boundary'),
+    # revert of fix commit c59cdff (F36a), reported on the finding's constructs by both layers; and two incomplete versions of the repair
+    Mutant("revert-F36a-close-after-first-swapped-out-entry", CH, '            closing = self.closing\n            self.closing = False\n            try:\n                for type, data in b:\n                    self.writeExtended(type, data)\n            finally:\n                self.closing = closing\n            if closing:\n                self.loseConnection()  # try again\n',
+           '            for type, data in b:\n                self.writeExtended(type, data)\n', expect_rule="sender/close-after-flush"),
+    Mutant("revert-F36a-close-after-first-swapped-out-entry-structural", CH, '            closing = self.closing\n            self.closing = False\n            try:\n                for type, data in b:\n                    self.writeExtended(type, data)\n            finally:\n                self.closing = closing\n            if closing:\n                self.loseConnection()  # try again\n',
+           '            for type, data in b:\n                self.writeExtended(type, data)\n', expect_rule="s/close/waits-for-swapped-out-entries"),
+    Mutant("F36a-repair-without-finally", CH, '            try:\n                for type, data in b:\n                    self.writeExtended(type, data)\n            finally:\n                self.closing = closing\n',
+           '            for type, data in b:\n                self.writeExtended(type, data)\n            self.closing = closing\n', expect_rule="s/close/recorded"),
+    Mutant("F36a-repair-without-retry", CH, '            if closing:\n                self.loseConnection()  # try again\n\n    def requestReceived',
+           '\n    def requestReceived', expect_rule="s/close/recorded"),
 ]
 SILENT = [
     Silent("close-guard-as-early-return", CH, "        self.closing = 1\n        if not self.buf and not self.extBuf:\n            self.conn.sendClose(self)\n", "        self.closing = 1\n        if self.buf or self.extBuf:\n            return\n        self.conn.sendClose(self)\n"),
-    Silent("rewrite-blocks-in-private-helpers", CH, "        if self.buf:\n            b = self.buf\n            self.buf = b\"\"\n            self.write(b)\n        if self.extBuf:\n            b = self.extBuf\n            self.extBuf = []\n            for type, data in b:\n                self.writeExtended(type, data)\n",
-           "        self._rewriteData()\n        self._rewriteExtended()\n\n    def _rewriteData(self):\n        if not self.buf:\n            return\n        pending, self.buf = self.buf, b\"\"\n        self.write(pending)\n\n    def _rewriteExtended(self):\n        if self.extBuf:\n            entries = self.extBuf\n            self.extBuf = []\n            for kind, piece in entries:\n                self.writeExtended(kind, piece)\n"),
+    Silent("rewrite-blocks-in-private-helpers", CH, '        if self.buf:\n            b = self.buf\n            self.buf = b""\n            self.write(b)\n        if self.extBuf:\n            b = self.extBuf\n            self.extBuf = []\n            # While the entries are held here loseConnection() sees empty\n            # buffers, so a pending close must wait until all of them have\n            # been handed back to writeExtended().\n            closing = self.closing\n            self.closing = False\n            try:\n                for type, data in b:\n                    self.writeExtended(type, data)\n            finally:\n                self.closing = closing\n            if closing:\n                self.loseConnection()  # try again\n',
+           '        self._rewriteData()\n        self._rewriteExtended()\n\n    def _rewriteData(self):\n        if not self.buf:\n            return\n        pending, self.buf = self.buf, b""\n        self.write(pending)\n\n    def _rewriteExtended(self):\n        if self.extBuf:\n            entries = self.extBuf\n            self.extBuf = []\n            wasClosing = self.closing\n            self.closing = False\n            try:\n                for kind, piece in entries:\n                    self.writeExtended(kind, piece)\n            finally:\n                self.closing = wasClosing\n            if wasClosing:\n                self.loseConnection()\n'),
+    # since fix c59cdff addWindowBytes holds the close back and re-tries it itself: writeExtended's own retry can no longer fire (was a MUTANT before the fix)
+    Silent("close-retry-in-writeExtended-now-redundant", CH, '            self.remoteWindowLeft -= len(data)\n        if self.closing:\n            self.loseConnection()  # try again\n',
+           '            self.remoteWindowLeft -= len(data)\n'),
     Silent("window-accounting-in-private-helper", CO, "        data = common.getNS(packet[4:])[0]\n        channel.localWindowLeft -= dataLength\n        if channel.localWindowLeft < channel.localWindowSize // 2:\n            self.adjustWindow(\n                channel, channel.localWindowSize - channel.localWindowLeft\n            )\n        channel.dataReceived(data)",
            "        data = common.getNS(packet[4:])[0]\n        self._consumeWindow(channel, dataLength)\n        channel.dataReceived(data)\n\n    def _consumeWindow(self, channel, used):\n        channel.localWindowLeft -= used\n        half = channel.localWindowSize // 2\n        if channel.localWindowLeft >= half:\n            return\n        missing = channel.localWindowSize - channel.localWindowLeft\n        self.adjustWindow(channel, missing)"),
     Silent("send-loop-named-piece", CH, "        rmp = self.remoteMaxPacket\n        write = self.conn.sendData\n        r = range(0, top, rmp)\n        for offset in r:\n            write(self, data[offset : offset + rmp])\n",
